@@ -116,7 +116,9 @@ package counts
 // From C12: the prefix is the largest one not exceeding the value (E1-E3),
 // values below the first prefix are printed exactly ("%d"), at least three
 // significant digits when a prefix is used (decimals chosen from the whole
-// part), unit string = prefix name + unit. The table has six entries (both
+// part), unit string = prefix name + unit; the value handed to fmt is the IEEE
+// quotient float64(n)/float64(multiplier) (what fmt then does with it — the
+// half-unit rounding clause — is not decided by this family). The table has six entries (both
 // Metric and Binary), so the quantifiers over table indices are finite
 // conjunctions (all(j, lo, hi, ...)) and every query is quantifier-free.
 //@ func (*Humaner).FormatNumber
@@ -134,6 +136,7 @@ package counts
 //@   ensures wholePart == n / prefix.Multiplier
 //@   ensures prefix.Multiplier == 1 ==> same(unitString, unit)
 //@   ensures prefix.Multiplier != 1 ==> keyof(unitString) == catkey(keyof(prefix.Name), keyof(unit))
+//@   ensures prefix.Multiplier != 1 ==> same(mantissa, float64(n) / float64(prefix.Multiplier))
 //@   ensures prefix.Multiplier != 1 && wholePart >= 100 ==> format == "%.0f"
 //@   ensures prefix.Multiplier != 1 && wholePart >= 10 && wholePart < 100 ==> format == "%.1f"
 //@   ensures prefix.Multiplier != 1 && wholePart < 10 ==> format == "%.2f"
